@@ -12,47 +12,57 @@ const printableNoBackquote = " !\"#$%&'()*+,-./0123456789:;<=>?@ABCDEFGHIJKLMNOP
 // dataPaths: programs in which the string variable s (holding the value under test) travels along one path.
 func dataPaths() []struct {
 	name string
-	body func(n int) []Stmt
+	body func(n int, d Expr) []Stmt
 } {
 	return []struct {
 		name string
-		body func(n int) []Stmt
+		body func(n int, d Expr) []Stmt
 	}{
-		{"print", func(n int) []Stmt { return []Stmt{Pr(V("s"))} }},
-		{"print-among-others", func(n int) []Stmt { return []Stmt{Pr(S("a"), V("s"), N(1))} }},
-		{"assign", func(n int) []Stmt { return []Stmt{Def("t", V("s")), VarT("u", TString), Set("u", V("t")), Pr(V("u"))} }},
-		{"concat", func(n int) []Stmt { return []Stmt{Pr(Op("+", Op("+", S("<"), V("s")), S(">")))} }},
-		{"compare", func(n int) []Stmt {
+		{"print", func(n int, d Expr) []Stmt { return []Stmt{Pr(V("s"))} }},
+		{"print-among-others", func(n int, d Expr) []Stmt { return []Stmt{Pr(S("a"), V("s"), N(1))} }},
+		{"assign", func(n int, d Expr) []Stmt { return []Stmt{Def("t", V("s")), VarT("u", TString), Set("u", V("t")), Pr(V("u"))} }},
+		{"concat", func(n int, d Expr) []Stmt { return []Stmt{Pr(Op("+", Op("+", S("<"), V("s")), S(">")))} }},
+		{"compare", func(n int, d Expr) []Stmt {
 			return []Stmt{Def("t", V("s")), Pr(Op("==", V("s"), V("t")), Op("!=", V("s"), S("a")), Op("==", V("s"), S("")))}
 		}},
-		{"argument", func(n int) []Stmt {
+		{"argument", func(n int, d Expr) []Stmt {
 			return []Stmt{Fn("f", []ParamDecl{Pm("p", TString), Pm("q", TInt)}, nil, Pr(V("p"), V("q"))), Do(Call("f", V("s"), N(7)))}
 		}},
-		{"return", func(n int) []Stmt {
+		{"return", func(n int, d Expr) []Stmt {
 			return []Stmt{Fn("g", []ParamDecl{Pm("p", TString)}, []Type{TString, TInt}, Ret(V("p"), N(7))), DefN([]string{"a", "b"}, Call("g", V("s"))), Pr(V("a"), V("b"))}
 		}},
-		{"slice-literal", func(n int) []Stmt { return []Stmt{Def("a", Strs(V("s"), S("z"))), Pr(Idx("a", N(0))), Pr(Len(V("a")))} }},
-		{"slice-store", func(n int) []Stmt {
+		{"slice-literal", func(n int, d Expr) []Stmt { return []Stmt{Def("a", Strs(V("s"), S("z"))), Pr(Idx("a", N(0))), Pr(Len(V("a")))} }},
+		{"slice-store", func(n int, d Expr) []Stmt {
 			return []Stmt{Def("a", Strs()), SSet("a", N(1), V("s")), Pr(Idx("a", N(1))), Pr(Len(V("a")), Idx("a", N(0)))}
 		}},
-		{"slice-copy", func(n int) []Stmt {
+		{"slice-copy", func(n int, d Expr) []Stmt {
 			return []Stmt{Def("a", Strs(V("s"))), Def("b", Strs()), Pr(CopyE{Dst: "b", Src: V("a")}), Pr(Idx("b", N(0)))}
 		}},
-		{"range", func(n int) []Stmt {
+		{"range", func(n int, d Expr) []Stmt {
 			return []Stmt{ForRange{I: "i", V: "ch", X: V("s"), Body: []Stmt{Pr(V("i"), V("ch"))}}}
 		}},
-		{"subscript", func(n int) []Stmt {
+		{"subscript", func(n int, d Expr) []Stmt {
 			return []Stmt{Pr(StrIdx{S: V("s"), I: N(0)}), Pr(Substr{S: V("s"), Lo: N(0), Hi: N(int64(n))}), Pr(Substr{S: V("s"), Lo: N(int64(n - 1))})}
 		}},
-		{"len", func(n int) []Stmt { return []Stmt{Pr(Len(V("s")))} }},
-		{"switch", func(n int) []Stmt {
+		{"len", func(n int, d Expr) []Stmt { return []Stmt{Pr(Len(V("s")))} }},
+		{"switch", func(n int, d Expr) []Stmt {
 			return []Stmt{Switch{Tag: V("s"), Cases: []Case{{Val: S("a"), Body: []Stmt{Pr(S("A"))}}}, HasDef: true, DefPos: 1, Default: []Stmt{Pr(S("D"))}}}
 		}},
-		{"panic", func(n int) []Stmt { return []Stmt{PanicS{X: V("s")}} }},
-		{"write-read", func(n int) []Stmt {
+		{"panic", func(n int, d Expr) []Stmt { return []Stmt{PanicS{X: V("s")}} }},
+		{"write-read", func(n int, d Expr) []Stmt {
 			return []Stmt{WriteS{Path: S("o.txt"), Data: V("s")}, Pr(ReadE{Path: S("o.txt")}), Pr(ExistsE{Path: S("o.txt")})}
 		}},
-		{"in-function-local", func(n int) []Stmt {
+		{"direct-argument", func(n int, d Expr) []Stmt {
+			return []Stmt{Fn("f", []ParamDecl{Pm("p", TString), Pm("q", TString)}, nil, Pr(S("<"), V("p"), S("|"), V("q"), S(">"))), Do(Call("f", d, S("k"))), Do(Call("f", S("k"), d))}
+		}},
+		{"direct-print-and-concat", func(n int, d Expr) []Stmt { return []Stmt{Pr(d), Pr(Op("+", S("<"), d)), Pr(S("x"), d, S("y"))} }},
+		{"direct-return-and-slice", func(n int, d Expr) []Stmt {
+			return []Stmt{Fn("g", nil, []Type{TString}, Ret(d)), Pr(Call("g")), Def("a", Strs(S("z"), d)), Pr(Idx("a", N(1)))}
+		}},
+		{"direct-compare-and-switch", func(n int, d Expr) []Stmt {
+			return []Stmt{Pr(Op("==", V("s"), d), Op("!=", d, S("q"))), Switch{Tag: V("s"), Cases: []Case{{Val: d, Body: []Stmt{Pr(S("same"))}}}, HasDef: true, DefPos: 1, Default: []Stmt{Pr(S("other"))}}}
+		}},
+		{"in-function-local", func(n int, d Expr) []Stmt {
 			return []Stmt{Fn("h", []ParamDecl{Pm("p", TString)}, []Type{TString}, Def("l", Op("+", V("p"), S("!"))), Def("a", Strs(V("l"))), Ret(Idx("a", N(0)))), Pr(Call("h", V("s")))}
 		}},
 	}
@@ -70,7 +80,8 @@ func c08Shapes(quick bool) []Shape {
 		sh = append(sh, Shape{Name: dp.name + ".literal", Prog: func(c *gosym.Ctx) *Program {
 			n := c.Choose("len", 1, maxN)
 			v := SymStr(c, "v", n, printableNoBackquote+"\n\t")
-			return Prog(append([]Stmt{Def("s", StrLit{Val: v, Raw: true})}, dp.body(n)...)...)
+			dexpr := Expr(StrLit{Val: v, Raw: true})
+			return Prog(append([]Stmt{Def("s", StrLit{Val: v, Raw: true})}, dp.body(n, dexpr)...)...)
 		}})
 		// origin 2: read from a file at run time
 		sh = append(sh, Shape{Name: dp.name + ".from-file",
@@ -79,7 +90,8 @@ func c08Shapes(quick bool) []Shape {
 				v := SymStr(c, "v", n, printableNoBackquote+"`\t")
 				c.Data["v"] = v
 				c.Data["n"] = n
-				return Prog(append([]Stmt{Def("s", ReadE{Path: S("in.txt")})}, dp.body(n)...)...)
+				dexpr := V("s")
+				return Prog(append([]Stmt{Def("s", ReadE{Path: S("in.txt")})}, dp.body(n, dexpr)...)...)
 			},
 			Setup: func(c *gosym.Ctx, in *Interp, shl *Shell) {
 				v := c.Data["v"].(gosym.Str)
@@ -104,7 +116,8 @@ func c08Shapes(quick bool) []Shape {
 				n := c.Choose("len", 1, maxN)
 				v := SymStr(c, "v", n, printableNoBackquote+"`\t")
 				c.Data["v"] = v
-				return Prog(append([]Stmt{Def("s", InputE{})}, dp.body(n)...)...)
+				dexpr := V("s")
+				return Prog(append([]Stmt{Def("s", InputE{})}, dp.body(n, dexpr)...)...)
 			},
 			Setup: func(c *gosym.Ctx, in *Interp, shl *Shell) {
 				v := c.Data["v"].(gosym.Str)
